@@ -189,6 +189,60 @@ func runC08(c *Checker) {
 			fmt.Sprintf("%d %s call(s), none skippable on a success path", len(calls), pr.prim.Name()),
 			pr.fn.Name()+" can succeed at "+bad+" without having called "+pr.prim.Name()+": the nonce counters of the two ends diverge (every later record fails) and a tag goes unchecked")
 	}
+	// ... and ReadMessage is exactly header-then-body: every successful return has passed ReadHeader
+	// and ReadBody, and nothing else in it consumes the transport (a leg that reads a record's bytes
+	// itself - "an empty body needs no decryption" - skips a Decrypt just the same)
+	if rm := mboxFunc(c, "(*mailbox.Machine).ReadMessage"); rm != nil {
+		for _, sub := range []*ssa.Function{rh, rb} {
+			calls := findCalls(rm, func(ci ssa.CallInstruction) bool { return ci.Common().StaticCallee() == sub })
+			bad := ""
+			allInstrs(rm, func(in ssa.Instruction) {
+				ret, ok := in.(*ssa.Return)
+				if !ok || bad != "" || ret.Block().Comment == "recover" {
+					return
+				}
+				succ := false
+				for _, v := range expandValues(ret.Results[len(ret.Results)-1]) {
+					if isNilConst(v) {
+						succ = true
+					}
+					if ex, isEx := v.(*ssa.Extract); isEx {
+						if call, isCall := ex.Tuple.(*ssa.Call); isCall && call.Common().StaticCallee() == rb {
+							succ = true // the pass-through of ReadBody's error may be nil
+						}
+					}
+				}
+				if succ && pathFromEntry(rm, ret, func(i2 ssa.Instruction) bool {
+					for _, cl := range calls {
+						if i2 == ssa.Instruction(cl) {
+							return true
+						}
+					}
+					return false
+				}) {
+					bad = w.pos(instrPos(ret))
+				}
+			})
+			c.decide(bad == "" && len(calls) == 1, "PAIR", "ReadMessage|every successful return has passed "+sub.Name(), rm.Pos(), "one "+sub.Name()+" call, not skippable on a success path",
+				"ReadMessage can succeed at "+bad+" without "+sub.Name()+": a record (or part of one) is consumed without being decrypted, the receive nonce falls behind the sender's")
+		}
+		other := ""
+		rdr := ssa.Value(rm.Params[1])
+		for _, ref := range *rdr.Referrers() {
+			ci, ok := ref.(ssa.CallInstruction)
+			if !ok {
+				if _, isDbg := ref.(*ssa.DebugRef); !isDbg {
+					other = fmt.Sprintf("%T at %s", ref, w.pos(instrPos(ref)))
+				}
+				continue
+			}
+			if sc := ci.Common().StaticCallee(); sc != rh && sc != rb {
+				other = calleeLabel(ci.Common()) + " at " + w.pos(instrPos(ci))
+			}
+		}
+		c.decide(other == "", "PAIR", "ReadMessage|the transport is consumed through ReadHeader/ReadBody only", rm.Pos(), "the reader is handed to ReadHeader and ReadBody and nothing else",
+			"ReadMessage uses the transport reader directly ("+other+"): bytes of a record are consumed outside the decrypting functions")
+	}
 	// every record encrypted by WriteMessage becomes the pending record: no exit after an
 	// Encrypt (which has advanced the nonce) that leaves its output unsent
 	{
@@ -238,7 +292,7 @@ func runC08(c *Checker) {
 		e, _ := constant.Int64Val(eh.Val())
 		c.decide(e == l+m && l == 2 && m == 16, "PAIR", "const|encHeaderSize = lengthHeaderSize + macSize", token.NoPos, fmt.Sprintf("%d = %d + %d", e, l, m), fmt.Sprintf("header constants disagree: %d vs %d + %d", e, l, m))
 	}
-	c.floor("PAIR", 10)
+	c.floor("PAIR", 13)
 	// the two directions use different keys (as C02/C04 KEYSEP): with one key for both, record n of
 	// one direction and record n of the other share key and nonce
 	ruleKEYSEP(c)
